@@ -174,16 +174,37 @@ func (s *Session) WrapWith(tr string, i int, kind string, names []string) Event 
 	switch {
 	case kind == "rofs":
 		s.FS = rofs.New(s.Base)
-	case strings.HasPrefix(kind, "sub:"):
-		// a Sub view of the base at the given directory
+	case strings.HasPrefix(kind, "sub:"), strings.HasPrefix(kind, "subn:"):
+		// a Sub view of the base at the given directory; "subn:" makes it level by level (nested views)
 		s.Wrap = "sub"
-		s.SubDir = strings.TrimPrefix(kind, "sub:")
+		nested := strings.HasPrefix(kind, "subn:")
+		s.SubDir = strings.TrimPrefix(strings.TrimPrefix(kind, "subn:"), "sub:")
 
-		sub, err := s.Base.Sub(s.SubDir)
-		if err != nil {
-			s.Dead = true
-		} else {
-			s.FS = sub
+		steps := []string{s.SubDir}
+		if nested {
+			steps = nil
+			for _, c := range strings.Split(strings.Trim(s.SubDir, "/"), "/") {
+				if c != "" {
+					steps = append(steps, "/"+c)
+				}
+			}
+		}
+
+		view := s.Base
+
+		for _, d := range steps {
+			sub, err := view.Sub(d)
+			if err != nil {
+				s.Dead = true
+
+				break
+			}
+
+			view = sub
+		}
+
+		if !s.Dead {
+			s.FS = view
 		}
 	case kind == "basepath":
 		s.BasePath = "/" + WorkDir + "/B"
